@@ -131,6 +131,9 @@ def run(model: RepoModel, rep, tier: str):
     _r5(model, rep)
     _r6(model, rep)
     _r7(model, rep)
+    _r9_hoisting(model, rep)
+    from .c01 import check_receiver_param_removal
+    check_receiver_param_removal(model, rep, "C05.R10", declare=True)
     from ..generic import check_accumulators
     check_accumulators(model, rep, "C05.R8", [SH, IH], C05_ADJUDICATED,
                        "declarations, visible scopes or import candidates gathered so far are incomplete, so some names stay unresolved or bind elsewhere", 5)
@@ -1010,7 +1013,25 @@ def _r7(model, rep, RID="C05.R7"):
         key = f"{where}::{label}: a matched module's imports are analysed on demand"
         calls = [c for c in ast.walk(lp) if isinstance(c, ast.Call) and call_name(c) == "self.analyze_unit_import_stmts" and c.args
                  and _is_attr_of(c.args[0], v, "symbol_id")]
+        extra = None
         if calls:
+            enc_ = enclosing_map(lp)
+            cur = calls[0]
+            while id(cur) in enc_:
+                par = enc_[id(cur)]
+                if isinstance(par, ast.If):
+                    t = par.test
+                    plain = isinstance(t, ast.Compare) and len(t.ops) == 1 and isinstance(t.ops[0], ast.Eq) and isinstance(t.left, ast.Attribute) \
+                        and isinstance(t.left.value, ast.Name) and t.left.value.id == v and t.left.attr in ("symbol_type", "symbol_name")
+                    if not plain or cur in par.orelse:
+                        extra = par
+                cur = par
+        if calls and extra is not None:
+            rep.violation(RID, key, IH, extra.lineno,
+                          f"the on-demand analysis of a matched module is additionally restricted by `{norm(extra.test)[:100]}`: when the "
+                          f"restriction does not hold (e.g. the module is an intermediate component of the import path, or re-exports the name) "
+                          f"its own imports are analysed only if run() happened to visit it earlier -- binding depends on unit order")
+        elif calls:
             rep.holds(RID, key, IH, calls[0].lineno, f"self.analyze_unit_import_stmts({v}.symbol_id) before the node's members are used")
         else:
             rep.violation(RID, key, IH, lp.lineno,
@@ -1052,6 +1073,28 @@ def _r7(model, rep, RID="C05.R7"):
             desc.append((n, strict, kinds))
     if not desc:
         raise AnalysisError(f"{f.ref}: the statement that reads the successors of a matched node was not found")
+    # (c) sites that add edges of the same kind pass the same attributes (an alias dropped at one of two near-identical sites)
+    by_kind: Dict[str, List[ast.Call]] = {}
+    for h in cls.methods.values():
+        for c in walk_no_nested(h.node):
+            if isinstance(c, ast.Call) and call_name(c) == "self.add_import_graph_edge":
+                k = kwarg(c, "edge_kind")
+                by_kind.setdefault(_attr_tail(k) if k is not None else "INTERNAL_SYMBOL", []).append(c)
+    for kind, calls in sorted(by_kind.items()):
+        if len(calls) < 2:
+            continue
+        sets = [frozenset(k.arg for k in c.keywords if k.arg) for c in calls]
+        key = f"{IH}::ImportHierarchy::all {len(calls)} sites adding {kind} edges pass the same attributes"
+        union = frozenset().union(*sets)
+        odd = [(c, sorted(union - s_)) for c, s_ in zip(calls, sets) if s_ != union]
+        if not odd:
+            rep.holds(RID, key, IH, calls[0].lineno, f"keywords {sorted(union)} at every site")
+        else:
+            c, missing = odd[0]
+            rep.violation(RID, key, IH, c.lineno,
+                          f"the call at line {c.lineno} adds a {kind} edge without {missing}, which the other site(s) pass: the edge's name "
+                          f"defaults to the imported symbol's own name, so `from pkg.mod import f as g` reached through this path leaves `g` "
+                          f"unresolved (and a later plain `f` binds to the wrong file)")
     for n, strict, kinds in desc:
         mode = "strict mode" if strict else "default mode"
         for k, ln in sorted(produced.items()):
@@ -1079,6 +1122,99 @@ def _enclosing_if(root, node) -> Optional[ast.If]:
     return None
 
 
+# ---------------------------------------------------------------------------------------------- R9
+AVD = "events/default_event_handlers/add_var_decl.py"
+
+
+def _r9_hoisting(model, rep, RID="C05.R9"):
+    """Declaration hoisting (adjust_variable_decls) decides which scope owns an assigned name.  Shared with C01.R9."""
+    rep.rule(RID, "declaration hoisting keeps function scope: the table of already-declared names of a method body is created empty in "
+                  "the method_decl branch (only the method's own parameters are entered), the bodies of nested statements share the "
+                  "enclosing frame's table (same object, so a declaration or global/nonlocal seen inside a block is still known after it), "
+                  "and class members start from a fresh table", 3)
+    m = model.module(AVD)
+    f = m.functions.get("adjust_variable_decls")
+    if f is None:
+        raise AnalysisError("adjust_variable_decls vanished")
+    where = f"{AVD}::adjust_variable_decls"
+    frames = [c for c in walk_no_nested(f.node) if isinstance(c, ast.Call) and call_name(c) == "StackFrame"]
+    if len(frames) < 3:
+        raise AnalysisError(f"{f.ref}: expected StackFrame constructions for class members, method bodies and nested statement bodies")
+    enc = enclosing_map(f.node)
+    # the loop variable holding the current frame: `frame = stack[-1]`
+    cur_frames = {n.targets[0].id for n in walk_no_nested(f.node) if isinstance(n, ast.Assign) and isinstance(n.targets[0], ast.Name)
+                  and isinstance(n.value, ast.Subscript) and isinstance(n.value.slice, ast.UnaryOp)}
+
+    def branch_test(c) -> str:
+        cur = c
+        while id(cur) in enc:
+            par = enc[id(cur)]
+            if isinstance(par, ast.If) and cur in par.body and any(isinstance(x, ast.Constant) and isinstance(x.value, str)
+                                                                    and (x.value.endswith("_decl") or x.value.endswith("_stmt")) for x in ast.walk(par.test)):
+                return " ".join(ast.unparse(par.test).split())
+            cur = par
+        return ""
+    seen = {"method": 0, "block": 0, "class": 0}
+    for c in frames:
+        bt = branch_test(c)
+        vk = kwarg(c, "variables")
+        stm = kwarg(c, "stmts")
+        if "'method_decl'" in bt:
+            seen["method"] += 1
+            key = f"{where}::method body frame starts from an empty table"
+            d = vk
+            if isinstance(vk, ast.Name):
+                defs = [n.value for n in walk_no_nested(f.node) if isinstance(n, (ast.Assign, ast.AnnAssign)) and getattr(n, "value", None) is not None
+                        and any(isinstance(t, ast.Name) and t.id == vk.id for t in (n.targets if isinstance(n, ast.Assign) else [n.target]))]
+                d = defs[0] if len(defs) == 1 else None
+            empty = isinstance(d, ast.Dict) and not d.keys or isinstance(d, ast.Call) and call_name(d) == "dict" and not d.args and not d.keywords
+            inherits = d is not None and any(isinstance(x, ast.Attribute) and x.attr == "variables" for x in ast.walk(d))
+            if vk is None or empty:
+                rep.holds(RID, key, AVD, c.lineno, "variables = {} (+ the method's parameters)")
+            elif inherits:
+                rep.violation(RID, key, AVD, c.lineno,
+                              f"the declared-name table of a method body is initialised from the enclosing frame (`{norm(d)}`): a nested function "
+                              f"that assigns a name its enclosing function already declared gets no declaration of its own, so the inner "
+                              f"assignment is bound to (and overwrites) the enclosing function's variable")
+            else:
+                rep.unknown(RID, key, AVD, c.lineno, f"initial table `{norm(d) if d is not None else norm(vk)}` not recognised")
+        elif "_stmt" in bt and "endswith" in bt:
+            seen["block"] += 1
+            key = f"{where}::nested statement bodies share the enclosing frame's table"
+            if isinstance(vk, ast.Attribute) and vk.attr == "variables" and isinstance(vk.value, ast.Name) and vk.value.id in cur_frames:
+                rep.holds(RID, key, AVD, c.lineno, f"variables={norm(vk)} (the same object)")
+            elif vk is not None and any(isinstance(x, ast.Attribute) and x.attr == "variables" for x in ast.walk(vk)):
+                rep.violation(RID, key, AVD, c.lineno,
+                              f"the body of a nested statement gets a copy of the declared-name table (`{norm(vk)}`): what is declared -- or "
+                              f"named by `global`/`nonlocal` -- inside an if/while/for block is forgotten when the block ends, and an assignment "
+                              f"after the block invents a new function-local declaration that captures every occurrence of the name")
+            elif vk is None:
+                rep.violation(RID, key, AVD, c.lineno,
+                              "the body of a nested statement starts from an empty declared-name table: every block re-declares the names it "
+                              "assigns, shadowing the function's own variables")
+            else:
+                rep.unknown(RID, key, AVD, c.lineno, f"table `{norm(vk)}` not recognised")
+        elif "class_decl" in bt:
+            seen["class"] += 1
+            key = f"{where}::class members start from a fresh table"
+            if vk is None:
+                rep.holds(RID, key, AVD, c.lineno, "StackFrame(stmts=...) uses the default_factory table")
+            elif any(isinstance(x, ast.Attribute) and x.attr == "variables" for x in ast.walk(vk)):
+                rep.violation(RID, key, AVD, c.lineno, f"class members inherit the enclosing table (`{norm(vk)}`): a method-level name hides the field declaration")
+            else:
+                rep.unknown(RID, key, AVD, c.lineno, f"table `{norm(vk)}` not recognised")
+    if not (seen["method"] and seen["block"] and seen["class"]):
+        raise AnalysisError(f"{f.ref}: frame constructions not classified ({seen})")
+    # the default of StackFrame.variables must be a per-instance dict
+    sf = m.classes.get("StackFrame")
+    key = f"{AVD}::StackFrame.variables default is per instance"
+    ok = sf is not None and any(isinstance(st, ast.AnnAssign) and isinstance(st.target, ast.Name) and st.target.id == "variables"
+                                and isinstance(st.value, ast.Call) and any(k.arg == "default_factory" for k in st.value.keywords) for st in sf.node.body)
+    (rep.holds if ok else rep.violation)(RID, key, AVD, sf.node.lineno if sf else 0,
+                                         "dataclasses.field(default_factory=dict)" if ok else
+                                         "StackFrame.variables has a shared default: frames created without a table share one dict")
+
+
 # ---------------------------------------------------------------------------------------------- self-test
 C05_ADJUDICATED = {
     "basics/import_hierarchy.py::ImportHierarchy.parse_import_path_from_module_worklist::`matched_nodes`::return under `name_to_be_matched == '*'`":
@@ -1090,6 +1226,20 @@ C05_ADJUDICATED = {
 }
 
 MUTANTS = [
+    ("on-demand import analysis only for the last component", IH,
+     lambda s: M.text_replace(s, "                    if candidate_node.symbol_type == LIAN_SYMBOL_KIND.UNIT_SYMBOL:\n                        self.analyze_unit_import_stmts(candidate_node.symbol_id)",
+                              "                    if candidate_node.symbol_type == LIAN_SYMBOL_KIND.UNIT_SYMBOL and len(import_path_list) == 1:\n                        self.analyze_unit_import_stmts(candidate_node.symbol_id)"),
+     "a matched module's imports are analysed on demand"),
+    ("alias dropped on the fallback import path", IH,
+     lambda s: M.text_replace(s, "                    import_stmt_id = stmt.stmt_id, alias = alias, symbol_type = each_node.symbol_type\n                )\n                self.add_import_deps(unit_id, each_node.symbol_id)\n                external_symbols.append(\n                    self.adjust_result_symbol_node(each_node, unit_id, stmt, alias)\n                )\n            # done\n            return external_symbols\n\n        # if self.is_strict_parse_mode:",
+                              "                    import_stmt_id = stmt.stmt_id, symbol_type = each_node.symbol_type\n                )\n                self.add_import_deps(unit_id, each_node.symbol_id)\n                external_symbols.append(\n                    self.adjust_result_symbol_node(each_node, unit_id, stmt, alias)\n                )\n            # done\n            return external_symbols\n\n        # if self.is_strict_parse_mode:"),
+     "sites adding EXTERNAL_SYMBOL edges pass the same attributes"),
+    ("nested function inherits the outer declared names", AVD,
+     lambda s: M.text_replace(s, "            method_vars: dict = {}", "            method_vars: dict = dict(frame.variables) if len(stack) > 1 else {}"),
+     "method body frame starts from an empty table"),
+    ("block frames get a copy of the table", AVD,
+     lambda s: M.text_replace(s, "                        variables=frame.variables, ", "                        variables=dict(frame.variables), "),
+     "nested statement bodies share the enclosing frame's table"),
     ("first declaring scope only", SH,
      lambda s: M.text_replace(s, "                symbol_name_to_scope_ids[symbol_name].add(row.scope_id)\n",
                               "                symbol_name_to_scope_ids[symbol_name].add(row.scope_id)\n                if len(symbol_name_to_scope_ids) > 4096:\n                    break\n"),
